@@ -5,6 +5,36 @@ from . import models
 from .loops import QWrite
 
 
+def lin_parts(t):
+    """Lin -> ({sym: k}, const), expanding multi-symbol terms ('sum', ((sym, k), ...))."""
+    d = {}
+    if t.sym is not None:
+        if t.sym[0] == "sum":
+            for (s, k) in t.sym[1]:
+                d[s] = d.get(s, 0) + k * t.k
+        else:
+            d[t.sym] = t.k
+    return d, t.c
+
+
+def lin_build(d, c):
+    d = {s: k for s, k in d.items() if k != 0}
+    if not d:
+        return Lin(c)
+    if len(d) == 1:
+        (s, k), = d.items()
+        return Lin(c, s, k)
+    return Lin(c, ("sum", tuple(sorted(d.items(), key=repr))), 1)
+
+
+def lin_combine(a, b, sign=1):
+    da, ca = lin_parts(a)
+    db, cb = lin_parts(b)
+    for s, k in db.items():
+        da[s] = da.get(s, 0) + sign * k
+    return lin_build(da, ca + sign * cb)
+
+
 class LoopHeadReached(Exception):
     pass
 
@@ -494,6 +524,9 @@ class Interp:
             if v.field == "nextfree":
                 raise Fork(models.freelist_options(st, v.n, "nextfree"), "materialise free-list link of " + v.n)
             raise Fork(st.materialise_options(v.n, v.field), "materialise %s.%s" % (v.n, v.field))
+        if isinstance(v, VSymBool):
+            from . import ppmodels
+            return ppmodels.force_symbool(self, st, v)
         return v
 
     # ------------------------------------------------------------------ operands / rvalues
@@ -720,6 +753,23 @@ class Interp:
         # Eq or Lt
         if a.sym == b.sym and a.k == b.k:
             return (a.c == b.c) if op == "Eq" else (a.c < b.c)
+        if (a.sym and a.sym[0] == "sum") or (b.sym and b.sym[0] == "sum"):
+            # multi-symbol terms: decide on the difference
+            d = lin_combine(a, b, -1)
+            dlo, dhi = st.term_bounds(d)
+            if dlo is not None:
+                if op == "Eq":
+                    if dlo == dhi == 0:
+                        return True
+                    if dlo > 0 or dhi < 0:
+                        return False
+                else:
+                    if dhi < 0:
+                        return True
+                    if dlo >= 0:
+                        return False
+            if d.sym is None or d.sym[0] != "sum":
+                return self.cmp(st, d, Lin(0), op)
         alo, ahi = st.term_bounds(a)
         blo, bhi = st.term_bounds(b)
         if alo is not None and blo is not None:
@@ -819,7 +869,7 @@ class Interp:
             return Lin(a.c + sign * b.c, b.sym, sign * b.k)
         if a.sym == b.sym:
             return Lin(a.c + sign * b.c, a.sym, a.k + sign * b.k)
-        raise Undecided("sum of two different symbols %r %r" % (a, b))
+        return lin_combine(a, b, sign)
 
     def binop(self, st, op, a, b, ty):
         if isinstance(a, VBool) and isinstance(b, VBool):
